@@ -215,16 +215,19 @@ def build_c05_query(db, name, ids):
         g = db['funcs'][s]
         L = [pr.signature(g), '{']
         ps = [p[1] for p in g.params]
-        if len(g.params) == 4 and 'tdnuc_' in ps and 'event_' in ps:
+        evn = next((p[1] for p in g.params if 'event' in p[2]), None)
+        is_scheme = (len(g.params) == 4 and evn and 'i_random' in g.params[0][2] and g.params[3][3] and 'double' in g.params[3][2])
+        if is_scheme:
+            tdn = g.params[3][1]
             sid = ids.setdefault(s, len(ids) + 1)
             # a scheme routine: log it, append 1..3 particles with arbitrary species/times, return an arbitrary decay time
             L.append('  __CPROVER_assert(g_ncalls < 8, "call log capacity");')
-            L.append('  g_calls[g_ncalls] = %d; g_size_at[g_ncalls] = event_->_particles_.size;' % sid)
+            L.append('  g_calls[g_ncalls] = %d; g_size_at[g_ncalls] = %s->_particles_.size;' % (sid, evn))
             L.append('  int k = nondet_int(); __CPROVER_assume(k >= 1 && k <= 3);')
             L.append('  for (int i = 0; i < 3; i++) if (i < k) { struct particle p; p._code_ = nondet_int(); __CPROVER_assume(p._code_ == 1 || p._code_ == 2 || p._code_ == 3 || p._code_ == 47);'
                      ' p._time_ = nondet_double(); __CPROVER_assume(p._time_ >= 0.0 && p._time_ <= 1.0e30); p._momentum_[0] = 0.0; p._momentum_[1] = 0.0; p._momentum_[2] = 1.0;'
-                     ' bx_vec_particle_push_back(&event_->_particles_, &p); }')
-            L.append('  double td = nondet_double(); __CPROVER_assume(td >= 0.0 && td <= 1.0e30); *tdnuc_ = td; g_td[g_ncalls] = td; g_ncalls = g_ncalls + 1;')
+                     ' bx_vec_particle_push_back(&%s->_particles_, &p); }' % evn)
+            L.append('  double td = nondet_double(); __CPROVER_assume(td >= 0.0 && td <= 1.0e30); *%s = td; g_td[g_ncalls] = td; g_ncalls = g_ncalls + 1;' % tdn)
         elif g.ret != 'void':
             L.append('  %s bx_r; return bx_r;' % g.ret)
         L.append('}')
@@ -297,3 +300,99 @@ def dispatch_literals(db):
                 fs(y)
     fs(f.body)
     return lits
+
+
+# ----------------------------------------------------------------------------------------------
+# C05 (double-beta names) + the C03 tie between the level table and the cascade routines
+# ----------------------------------------------------------------------------------------------
+
+def readme_dbd():
+    """README: isotope -> (daughter, published chain spelling or None)"""
+    txt = open(os.path.join(REPO, 'README.rst')).read()
+    out = {}
+    i = txt.index('From the ``dbd_isotopes.lis`` resource file')
+    for ln in txt[i:].split('\n')[1:]:
+        m = re.match(r'^\* ``([^`]+)``(?:\s+\(for ``([^`]+)``\))?', ln)
+        if m:
+            out[m.group(1)] = [None, m.group(2)]
+        elif out and ln.strip() and not ln.startswith('*'):
+            break
+    j = txt.index('List of daughter nucleus excited states in double beta decay')
+    for m in re.finditer(r'^\* ``(\w+)`` ->\s+``(\w+)``', txt[j:], re.M):
+        if m.group(1) in out:
+            out[m.group(1)][0] = m.group(2)
+    return out
+
+
+def build_c05_dbd_query(db, name, daughter, chain, ids):
+    T = db['types']
+    real, stubs = genbbsub_closure(db, ('decay0_emass', 'electron_mass_MeV', 'particle_mass_MeV'))
+    parts = [oblig.prelude(db, '#define BX_CAP 16')]
+    parts.append('static int g_calls[8]; static int g_ncalls; static double g_td[8]; static unsigned long g_size_at[8]; static int g_lev[8];')
+    pr = bx2c.Printer(T, bx2c.Opts())
+    for s in stubs:
+        g = db['funcs'][s]
+        L = [pr.signature(g), '{']
+        ps = [p[1] for p in g.params]
+        evn = next((p[1] for p in g.params if 'event' in p[2]), None)
+        sid = None
+        if s == 'decay0_bb':
+            sid = ids.setdefault(s, len(ids) + 1)
+            L.append('  __CPROVER_assert(g_ncalls < 8, "call log capacity");')
+            L.append('  g_calls[g_ncalls] = %d; g_size_at[g_ncalls] = %s->_particles_.size; g_ncalls = g_ncalls + 1;' % (sid, evn))
+            L.append('  { struct particle p; p._code_ = 3; p._time_ = 0.0; p._momentum_[0] = 0.0; p._momentum_[1] = 0.0; p._momentum_[2] = 1.0; bx_vec_particle_push_back(&%s->_particles_, &p); }' % evn)
+        elif len(g.params) == 3 and evn and s.endswith('low'):
+            sid = ids.setdefault(s, len(ids) + 1)
+            lvn = g.params[2][1]
+            lv = oblig.level_literals(g, lvn)
+            L.append('  __CPROVER_assert(g_ncalls < 8, "call log capacity");')
+            if lv:
+                L.append('  __CPROVER_assert(%s, "C03 %s: the level handed to the cascade is one that %s releases (ties the level table to the cascade)");' % (' || '.join('%s == %d' % (lvn, v) for v in lv), name, s))
+            L.append('  g_calls[g_ncalls] = %d; g_lev[g_ncalls] = %s; g_size_at[g_ncalls] = %s->_particles_.size; g_ncalls = g_ncalls + 1;' % (sid, lvn, evn))
+            L.append('  if (nondet_int()) { struct particle p; p._code_ = 1; p._time_ = 0.0; p._momentum_[0] = 0.0; p._momentum_[1] = 0.0; p._momentum_[2] = 1.0; bx_vec_particle_push_back(&%s->_particles_, &p); }' % evn)
+        elif len(g.params) == 4 and evn and 'i_random' in g.params[0][2] and g.params[3][3]:
+            sid = ids.setdefault(s, len(ids) + 1)
+            L.append('  __CPROVER_assert(g_ncalls < 8, "call log capacity");')
+            L.append('  g_calls[g_ncalls] = %d; g_size_at[g_ncalls] = %s->_particles_.size;' % (sid, evn))
+            L.append('  { struct particle p; p._code_ = 47; p._time_ = nondet_double(); __CPROVER_assume(p._time_ >= 0.0 && p._time_ <= 1.0e30); p._momentum_[0] = 0.0; p._momentum_[1] = 0.0; p._momentum_[2] = 1.0; bx_vec_particle_push_back(&%s->_particles_, &p); }' % evn)
+            L.append('  double td = nondet_double(); __CPROVER_assume(td >= 0.0 && td <= 1.0e30); *%s = td; g_td[g_ncalls] = td; g_ncalls = g_ncalls + 1;' % g.params[3][1])
+        elif g.ret != 'void':
+            L.append('  %s bx_r; return bx_r;' % g.ret)
+        L.append('}')
+        parts.append('\n'.join(L))
+    for n in reversed(real):
+        parts.append(bx2c.Printer(T, bx2c.Opts()).function(db['funcs'][n]))
+    if chain:
+        ds = chain.split('+')[1:]
+        expect = [ds[0] + 'low'] + ds
+    else:
+        expect = [daughter + 'low']
+    for e in expect:
+        if e not in ids:
+            raise Unsupported('routine %s (from the README) is not dispatched by genbbsub' % e)
+    tag = 'C05 %s' % name
+    H = ['void harness(void)', '{']
+    H.append('  bx_prng rng; struct event ev; struct bbpars pars;')
+    H.append('  ev._particles_.cap = BX_CAP; ev._particles_.data = (struct particle *)malloc(BX_CAP * sizeof(struct particle)); __CPROVER_assume(ev._particles_.data != 0);')
+    H.append('  ev._particles_.size = 0; ev._generator_.s = ""; ev._generator_.n = 0; ev._time_ = nondet_double(); bx_exc = 0; g_ncalls = 0;')
+    H.append('  bx_string nm = BX_STR_LIT("%s");' % name)
+    H.append('  int ilevel = nondet_int(), modebb = nondet_int(), ier = nondet_int();')
+    H.append('  genbbsub(&rng, &ev, 1, &nm, ilevel, modebb, -1, &ier, &pars);')
+    H.append('  __CPROVER_assume(ier == 0 && !bx_exc);   /* every accepted configuration (which ones: C06) */')
+    H.append('  g_ncalls = 0; ev._particles_.size = 0;')
+    H.append('  genbbsub(&rng, &ev, 1, &nm, ilevel, modebb, 1, &ier, &pars);')
+    H.append('  __CPROVER_assert(ier == 0 && !bx_exc, "%s: an accepted configuration generates");' % tag)
+    H.append('  __CPROVER_assert(g_ncalls == %d, "%s: the primary process, the daughter cascade and the documented chain run, nothing else");' % (1 + len(expect), tag))
+    H.append('  __CPROVER_assert(g_ncalls >= 1 && g_calls[0] == %d, "%s: the double-beta process comes first");' % (ids['decay0_bb'], tag))
+    for k, e in enumerate(expect):
+        H.append('  __CPROVER_assert(g_ncalls > %d && g_calls[%d] == %d, "%s: step %d is %s");' % (k + 1, k + 1, ids[e], tag, k + 1, e))
+    H.append('  __CPROVER_assert(g_ncalls < 2 || g_lev[1] == %s, "%s: the cascade starts at the level set by initialisation");' % ('0' if chain else 'pars.bx_base_enrange.levelE', tag))
+    if chain:
+        H.append('  for (int c = 2; c < 8; c++) if (c < g_ncalls) for (unsigned long i = 0; i < BX_CAP; i++) if (i < ev._particles_.size && i >= g_size_at[c] && (c + 1 >= g_ncalls || i < g_size_at[c + 1]))')
+        H.append('    __CPROVER_assert(ev._particles_.data[i]._time_ >= g_td[c], "%s: chain daughters are delayed by their decay time");' % tag)
+    H.append('  __CPROVER_assert(ev._time_ == 0.0, "C04 %s: event reference time is 0");' % name)
+    H.append('  __CPROVER_assert(bx_string_eq(&ev._generator_, &nm), "C04 %s: generator label is the requested name");' % name)
+    H.append('  __CPROVER_assert(0, "canary %s: harness end is reachable (must be refuted)");' % name)
+    H.append('}')
+    parts.append('\n'.join(H))
+    return {'c': '\n\n'.join(parts) + '\n', 'entry': 'harness', 'meta': {'function': 'genbbsub', 'what': 'c05', 'name': name, 'expect': expect}}
